@@ -24,6 +24,8 @@ pub struct Profile {
     pub p_outer: f64,
     /// Every table with every pool column (Sim-A's fixed-shape catalogue for its query corpus).
     pub full_catalogue: bool,
+    /// Probability of a nested DP sub-query (global statistic cross-joined into the aggregation).
+    pub p_nested: f64,
 }
 
 impl Profile {
@@ -40,10 +42,11 @@ impl Profile {
             p_grouped: 0.7,
             p_outer: 0.1,
             full_catalogue: false,
+            p_nested: 0.08,
         };
         match prop {
             "C09" => Profile { public_keys_only: true, benign_data: true, p_distinct: 0.12, p_row_privacy: 0.15, p_grouped: 0.65, ..base },
-            "C04" => Profile { need_private_key: true, p_grouped: 1.0, p_outer: 0.0, p_distinct: 0.05, ..base },
+            "C04" => Profile { p_nested: 0.0, need_private_key: true, p_grouped: 1.0, p_outer: 0.0, p_distinct: 0.05, ..base },
             "C16" => Profile { full_catalogue: true, p_public_table: 1.0, p_synthetic: 0.3, ..base },
             "C02" => Profile { p_plain: 0.25, p_synthetic: 0.4, p_public_table: 0.5, p_outer: 0.2, ..base },
             _ => base,
@@ -178,6 +181,7 @@ pub fn generate(seed: u64, run: u64, prop: &str) -> Generated {
     let users_unique = rc.chance(0.6);
     let mut users = TableSpec {
         name: "users".into(),
+        qrlew_name: None,
         cols: vec![ColSpec { name: "id".into(), ty: ColType::IntRange { lo: 0, hi: id_hi }, optional: false, unique: users_unique }],
         size: 0,
         rows: vec![],
@@ -193,6 +197,7 @@ pub fn generate(seed: u64, run: u64, prop: &str) -> Generated {
     }
     let mut orders = TableSpec {
         name: "orders".into(),
+        qrlew_name: None,
         cols: vec![
             ColSpec { name: "id".into(), ty: ColType::IntRange { lo: 0, hi: 100000 }, optional: false, unique: rc.chance(0.5) },
             ColSpec { name: "user_id".into(), ty: ColType::IntRange { lo: 0, hi: id_hi }, optional: false, unique: false },
@@ -203,6 +208,7 @@ pub fn generate(seed: u64, run: u64, prop: &str) -> Generated {
     orders.cols.extend(pick_cols(&mut rc, orders_pool(), profile.benign_data, profile.full_catalogue));
     let mut items = TableSpec {
         name: "items".into(),
+        qrlew_name: None,
         cols: vec![ColSpec { name: "order_id".into(), ty: ColType::IntRange { lo: 0, hi: 100000 }, optional: false, unique: false }],
         size: 0,
         rows: vec![],
@@ -211,6 +217,7 @@ pub fn generate(seed: u64, run: u64, prop: &str) -> Generated {
     let with_public = rc.chance(profile.p_public_table);
     let regions = TableSpec {
         name: "regions".into(),
+        qrlew_name: None,
         cols: vec![
             ColSpec { name: "city".into(), ty: tv(&["NY", "LA", "SF", "DC"]), optional: false, unique: true },
             ColSpec { name: "factor".into(), ty: ColType::FloatRange { lo: 0.5, hi: 2.0 }, optional: false, unique: false },
@@ -263,9 +270,30 @@ pub fn generate(seed: u64, run: u64, prop: &str) -> Generated {
             protected.push("items".into());
         }
     }
+    // relation name != path for the protected tables (as in the repository's own test database);
+    // the privacy-unit entries then designate the tables by relation name or by path
+    let mut entries = entries;
+    let alias_names = rp.chance(0.2);
+    let pu_by_relation_name = rp.chance(0.5);
+    if alias_names {
+        for t in [&mut users, &mut orders, &mut items] {
+            t.qrlew_name = Some(format!("{}_rel", t.name));
+        }
+        if pu_by_relation_name {
+            for e in entries.iter_mut() {
+                e.table = format!("{}_rel", e.table);
+                for step in e.path.iter_mut() {
+                    step.1 = format!("{}_rel", step.1);
+                }
+            }
+        }
+    }
     let pu = PuSpec { entries, hash: rp.chance(0.3) };
     tags.push(format!("pu:{}{}{}", if row_privacy { "row" } else if direct_orders { "direct" } else if with_name_unit { "name" } else { "id" }, if pu.hash { "+hash" } else { "" }, if weight.is_some() { "+w" } else { "" }));
     tags.push(format!("depth:{}", depth));
+    if alias_names {
+        tags.push(format!("names:{}", if pu_by_relation_name { "pu_by_relation_name" } else { "pu_by_path" }));
+    }
 
     // ---------------- parameters ----------------
     let mut rq = Rng::stream(seed, run, "params");
@@ -446,6 +474,7 @@ pub fn generate(seed: u64, run: u64, prop: &str) -> Generated {
         for t in tables.iter().filter(|t| protected.contains(&t.name)) {
             let mut s = t.clone();
             s.name = format!("syn_{}", t.name);
+            s.qrlew_name = None;
             // independent rows of the same shape
             let n = 1 + rs.below(12) as usize;
             s.rows = (0..n)
@@ -550,7 +579,7 @@ pub fn generate(seed: u64, run: u64, prop: &str) -> Generated {
             plain.push((q.clone(), format!("p{}", j)));
         }
         tags.push("plain".into());
-        let query = QuerySpec { from, where_, keys: vec![], aggs: vec![], having: None, outer: None, plain: Some(plain) };
+        let query = QuerySpec { from, where_, keys: vec![], aggs: vec![], having: None, outer: None, plain: Some(plain), cte: None };
         return finish(seed, run, tables, synthetic, pu, params, query, None, tags, faults, &protected);
     }
 
@@ -667,7 +696,28 @@ pub fn generate(seed: u64, run: u64, prop: &str) -> Generated {
     } else { None };
     if !where_.is_empty() { tags.push("where".into()); }
     let base = Some((alias_of(&base_t.name), base_t.name.clone()));
-    let query = QuerySpec { from, where_, keys, aggs, having, outer, plain: None };
+    // nested DP sub-query: a global mean of a numeric column of the base table, used inside one
+    // aggregate of the outer query (two DP aggregations, composed along a join)
+    let mut cte = None;
+    if rg.chance(profile.p_nested) {
+        let base_alias = alias_of(&base_t.name);
+        let own_numeric: Vec<&(String, ColSpec)> = numeric.iter().cloned().filter(|(q, _)| q.starts_with(&format!("{}.", base_alias))).collect();
+        if !own_numeric.is_empty() {
+            let (q, c) = own_numeric[rg.usize(own_numeric.len())];
+            let col = q.split('.').nth(1).unwrap().to_string();
+            cte = Some(format!("SELECT avg(b.{}) AS m FROM {} AS b", col, base_t.name));
+            let scale = match &c.ty {
+                ColType::IntRange { lo, hi } => (hi - lo).abs() as f64 + 1.0,
+                ColType::FloatRange { lo, hi } => (hi - lo).abs() + 1.0,
+                _ => 1000.0,
+            };
+            let f = *rg.pick(&[AggFn::Sum, AggFn::Avg]);
+            let alias = format!("a{}", aggs.len());
+            aggs.push(AggSpec { f, distinct: false, arg: format!("{} - s.m", q), alias, scale });
+            tags.push("nested".into());
+        }
+    }
+    let query = QuerySpec { from, where_, keys, aggs, having, outer: if cte.is_some() { None } else { outer }, plain: None, cte };
     finish(seed, run, tables, synthetic, pu, params, query, base, tags, faults, &protected)
 }
 
